@@ -13,7 +13,7 @@ from pyvc import term as tm
 from pyvc.term import INT, BOOL, STR
 from pyvc.values import VT, VObj, VNone, NONE, VTuple, VList
 from pyvc.contract import Contract, LoopSpec
-from pyvc.models import re_window, rematch_span_terms, re_at
+from pyvc.models import re_window, rematch_span_terms, re_at, shape3_facts
 
 FILE = "moclo/moclo/regex.py"
 
@@ -57,7 +57,8 @@ def span_at(ex, st, sm, i):
     s0, s1 = rematch_span_terms(st, m, i)
     ln = st.get(m, "len").t
     pos = st.get(m, "pos").t
-    re1 = tm.and_(tm.le(pos, s0), tm.le(s0, s1), tm.le(s1, tm.add(pos, ln)))
+    re1 = tm.and_(tm.le(pos, s0), tm.le(s0, s1), tm.le(s1, tm.add(pos, ln)),
+                  tm.implies(tm.eq(tm.lift(i), 0), tm.and_(tm.eq(s0, pos), tm.eq(s1, tm.add(pos, ln)))))
     return s0, s1, re1
 
 
@@ -74,8 +75,13 @@ class Group(Contract):
         return dict(self=sm, index=VT(tm.V("index", INT)))
 
     def requires(self, ex, st, a):
+        return [("inv_seqmatch", inv_seqmatch(ex, st, a["self"]))]
+
+    def assumes(self, ex, st, a):
+        # D-RE (RE1): the span of a group lies inside the match
         s0, s1, re1 = span_at(ex, st, a["self"], a["index"].t)
-        return [("inv_seqmatch", inv_seqmatch(ex, st, a["self"])), ("RE1-span", re1)]
+        m = st.get(a["self"], "match")
+        return [re1, shape3_facts(st.get(m, "pat").t, st.get(m, "w").t)]
 
     def ensures(self, ex, pre, st, a, result):
         s0, s1, _ = span_at(ex, pre, a["self"], a["index"].t)
@@ -130,7 +136,8 @@ class SpanLike(Contract):
         m = st.get(a["self"], "match")
         ln, pos = st.get(m, "len").t, st.get(m, "pos").t
         st = st.assume(tm.le(pos, s0), tm.le(s0, s1), tm.le(s1, tm.add(pos, ln)),
-                       tm.implies(tm.eq(i, 0), tm.and_(tm.eq(s0, pos), tm.eq(s1, tm.add(pos, ln)))))
+                       tm.implies(tm.eq(i, 0), tm.and_(tm.eq(s0, pos), tm.eq(s1, tm.add(pos, ln)))),
+                       shape3_facts(st.get(m, "pat").t, st.get(m, "w").t))
         if self.which == "span":
             return [(st, VTuple([VT(s0), VT(s1)]))]
         return [(st, VT(s0 if self.which == "start" else s1))]
@@ -234,6 +241,7 @@ class Search(Contract):
             ("matches-at-start", tm.and_(re_at(pat, d, start, n), tm.app("re_m", BOOL, pat, w))),
             ("match-object", tm.and_(tm.eq(st.get(m, "pat").t, pat), tm.eq(st.get(m, "w").t, w))),
             ("at-most-one-turn", tm.and_(tm.le(0, ln), tm.le(ln, n))),
+            ("length-is-the-match-length", tm.eq(ln, tm.app("re_len", INT, pat, w))),
             ("linear-never-wraps", tm.implies(tm.not_(doubled), tm.le(tm.add(start, ln), n))),
             ("rec-is-target", tm.B(st.get(result, "rec") is a["string"])),
         ]
